@@ -485,6 +485,7 @@ def run(chk: Check) -> None:
         return
     rec: list[dict[str, Any]] = []
     info: dict[str, Any] = {}
+    nstuck = 0
     for lib_is_server in (False, True):
         L = _reference_total(lib_is_server)
         # record boundaries of the reference stream
@@ -496,7 +497,13 @@ def run(chk: Check) -> None:
         for standard in (True, False):
             for k in sorted(cuts):
                 for into in (False, True):
-                    r = vloop.run(lambda: _async_session(lib_is_server, standard, k, into))
+                    if nstuck >= 4:
+                        continue  # sessions that never end: the verdict is there, the other cut offsets need not be sat out
+                    try:
+                        r = vloop.run(lambda: _async_session(lib_is_server, standard, k, into), wall_limit=15)
+                    except vloop.VirtualDeadlock as exc:
+                        nstuck += 1
+                        r = {"events": [{"ev": "wrap_ok"}, {"ev": "crash:" + str(exc)[:40]}]}
                     rec.append(
                         {
                             "par": {"total": L, "cut": k, "plain": len(PLAIN), "standard": standard},
